@@ -189,30 +189,30 @@ NOT_APPLICABLE = {}
 # Clauses added after the sub-agent rounds (seeded changes that the first rule sets missed); appended to the claim texts.
 ADDENDA = {
  "C01": "Also: a fill (amounts and fees) reaches the account as one all-or-nothing update, and the delta applied is exactly fill + fees, only pruned (C01.3).",
- "C02": "Also (C02.2): the rule loop dominates every commit of the ledger maps (no kind of update is exempt). Also: the update-rule frame table (C06.4) is reported as C02.3 (ValidHold reads balances and holds only); nothing can fail between crediting the borrowed amount and registering the loan, registration post-dominates the "
+ "C02": "Also (C02.4): ExchangeObjectContainer.add records the item on every normal path and every loan gets its own uuid4. Also (C02.2): the rule loop dominates every commit of the ledger maps (no kind of update is exempt). Also: the update-rule frame table (C06.4) is reported as C02.3 (ValidHold reads balances and holds only); nothing can fail between crediting the borrowed amount and registering the loan, registration post-dominates the "
         "commit, and every lending strategy lends exactly the amount requested (C02.4).",
- "C03": "Also (C03.5): no ordering on the dispatch / matching path is keyed by a per-run identifier (uuid ids, id(), hash()). Also (C03.7, shared with C12.3): the multiplexer hands out every due event - a source is polled whenever its slot is empty.",
- "C04": "Also (C04.1): an order computes its fills from its own state (no delegation to another order object). Also (C04.5, shared with C05.2): every bar of a pair reaches the matching loop. Also (C04.5, shared with C05.5): the open-order index never loses an order that is still open, so every open order of the "
+ "C03": "Also (C03.4, shared with C12.1): the simulated clock shows the pass time before any handler of the pass can start. Also (C03.5): no ordering on the dispatch / matching path is keyed by a per-run identifier (uuid ids, id(), hash()). Also (C03.7, shared with C12.3): the multiplexer hands out every due event - a source is polled whenever its slot is empty.",
+ "C04": "Also (C04.1): get_balance_updates is handed the event's own bar (not a rebuilt or rounded copy). Also (C04.1): an order computes its fills from its own state (no delegation to another order object). Also (C04.5, shared with C05.2): every bar of a pair reaches the matching loop. Also (C04.5, shared with C05.5): the open-order index never loses an order that is still open, so every open order of the "
         "bar's pair is matched on every bar.",
  "C07": "Also: raise sets include NoPrice from Prices.convert (it was wrongly treated as an environment lookup; that hid defects D12 and "
         "D13, now fixed); the loan a strategy creates carries exactly the requested amount (premise of lemma L2, C07.2).",
  "C08": "Also (C08.5): no precision (an int) is used as a truth value in the modules that resolve and apply precisions, and every rounding "
         "call of OrderManager takes its precision from get_pair_info(pair).",
  "C09": "Also (C09.3, shared with C08.5): the precision fees are rounded to is the pair's.",
- "C10": "Also (C10.7): no handler on the valuation path swallows NoPrice.",
- "C12": "Also (C12.3): every event pop_while takes out of the multiplexer is yielded (pop() is the last operand of the loop test).",
+ "C10": "Also (C10.4): conditions configured for a symbol take precedence over the default conditions. Also (C10.7): no handler on the valuation path swallows NoPrice.",
+ "C12": "Also (C12.3): no Event subclass defines __bool__/__len__ (the multiplexer tells an event from nothing by truth value). Also (C12.3): every event pop_while takes out of the multiplexer is yielded (pop() is the last operand of the loop test).",
  "C13": "Also (C13.3): the job started is the job popped from the queue, popped before it is pushed. Also (C13.4): schedule() and SchedulerQueue.push queue the job under exactly the time given. Also (C13.3): the scheduler pass returns only across the 'next job is not due' edge (no other early exit).",
- "C14": "Also (C14.2): the isolating handler does not read attributes of the user-supplied callable (so it cannot fail itself). Also (C14.1): an exception or cancellation that ends the initialize phase cannot be followed by main(); the context manager "
+ "C14": "Also (C14.1): in run()'s finally the pool is told to cancel on every path into the wait. Also (C14.2): the isolating handler does not read attributes of the user-supplied callable (so it cannot fail itself). Also (C14.1): an exception or cancellation that ends the initialize phase cannot be followed by main(); the context manager "
         "both phases run in lets exceptions propagate.",
  "C16": "Also (C16.2): a signed parameter map flows only to the transport, never to the signer again. Also (C16.1): encoder identity includes what is done to the mapping before it is encoded (signer and transport must apply the "
         "same transformation), and follows helper functions across modules.",
  "C19": "Also (C19.2): every flush consumes the skip-first-bar flag; every feeder of push_trade passes the trade's own timestamp.",
- "C05": "Also (C05.2): the matching loop is on every normal path of on_bar_event; C05.5 is decided on CFG path conditions (shape-independent).",
+ "C05": "Also (C05.4, shared with C07.1): nothing can fail between an order's state change and its event. Also (C05.2): the matching loop is on every normal path of on_bar_event; C05.5 is decided on CFG path conditions (shape-independent).",
  "C06": "Also (C06.5): order classes that carry a limit price reserve at that price (with C04.1: the reservation bounds what a fill can cost).",
  "C11": "Also (C11.4, shared with C06.2): every way an order closes goes through _order_closed, where auto-repay lives.",
- "C15": "Also (C15.1, shared with C13.4): the time a job is queued under is the time the caller gave (no conversion or rounding).",
+ "C15": "Also (C15.2, shared with C12.3): the multiplexer keeps or hands out every event it takes from a source. Also (C15.1, shared with C13.4): the time a job is queued under is the time the caller gave (no conversion or rounding).",
  "C17": "Also (C17.2): stopLimitTimeInForce is dropped (by the request object or the client) when no stop limit price is given. Also (C17.1): the value is not rewritten before the Decimal branch of set_optional_params.",
- "C18": "Also (C18.4): the stream routing table accumulates and is never replaced by the channels of one call.",
+ "C18": "Also (C18.4): resolve_stream_name obtains a new listen key on every path (no cached key after expiry). Also (C18.4): the stream routing table accumulates and is never replaced by the channels of one call.",
  "C20": "Also (C20.1): the limiter object's truth value is its identity (no __bool__/__len__), since callers test `if self._tb and ...`.",
 }
 for _pid, _txt in ADDENDA.items():
